@@ -307,20 +307,27 @@ fn invert(ts: &Transform) -> Option<Transform> {
     debug_assert!(!ts.is_identity());
 
     if ts.is_scale_translate() {
-        if ts.has_scale() {
+        let inv_ts = if ts.has_scale() {
             let inv_x = ts.sx.invert();
             let inv_y = ts.sy.invert();
-            Some(Transform::from_row(
+            Transform::from_row(
                 inv_x,
                 0.0,
                 0.0,
                 inv_y,
                 -ts.tx * inv_x,
                 -ts.ty * inv_y,
-            ))
+            )
         } else {
             // translate only
-            Some(Transform::from_translate(-ts.tx, -ts.ty))
+            Transform::from_translate(-ts.tx, -ts.ty)
+        };
+
+        // A zero (or non-finite) scale has no finite inverse.
+        if inv_ts.is_finite() {
+            Some(inv_ts)
+        } else {
+            None
         }
     } else {
         let inv_det = inv_determinant(ts)?;
